@@ -392,20 +392,38 @@ func leanStr(s string) string {
 
 func main() {
 	repo := flag.String("repo", "/repo", "")
-	anchorsPath := flag.String("anchors", "anchors.json", "")
+	anchorsPath := flag.String("anchors", "anchors", "")
 	leanOut := flag.String("lean", "", "")
 	jsonOut := flag.String("json", "", "")
 	flag.Parse()
 
-	raw, err := os.ReadFile(*anchorsPath)
-	if err != nil {
-		fmt.Fprintln(os.Stderr, err)
-		os.Exit(2)
-	}
+	// anchorsPath is a directory of *.json files (one per property) or one file
 	var as []anchor
-	if err := json.Unmarshal(raw, &as); err != nil {
-		fmt.Fprintln(os.Stderr, "anchors:", err)
-		os.Exit(2)
+	paths := []string{*anchorsPath}
+	if st, err := os.Stat(*anchorsPath); err == nil && st.IsDir() {
+		paths, _ = filepath.Glob(filepath.Join(*anchorsPath, "*.json"))
+		sort.Strings(paths)
+	}
+	seen := map[string]bool{}
+	for _, p := range paths {
+		raw, err := os.ReadFile(p)
+		if err != nil {
+			fmt.Fprintln(os.Stderr, err)
+			os.Exit(2)
+		}
+		var part []anchor
+		if err := json.Unmarshal(raw, &part); err != nil {
+			fmt.Fprintln(os.Stderr, "anchors:", p, err)
+			os.Exit(2)
+		}
+		for _, a := range part {
+			if seen[a.Name] {
+				fmt.Fprintln(os.Stderr, "duplicate anchor name", a.Name, "in", p)
+				os.Exit(2)
+			}
+			seen[a.Name] = true
+			as = append(as, a)
+		}
 	}
 	var facts []fact
 	for _, a := range as {
